@@ -89,13 +89,22 @@ func (c *Crew) NewCaptainSpec() *core.Spec {
 			"do": {
 				Action: &core.FuncAction{
 					F: func(ctx context.Context, bs match.Bindings, props core.StepProps) (*core.Execution, error) {
+						// failed notes the error and forgets the
+						// message: with "?op" still bound, the
+						// pattern at "start" would from now on
+						// match only a message equal to this one,
+						// and the captain would ignore every other
+						// operation for good.
+						failed := func(msg string) *core.Execution {
+							return core.NewExecution(match.NewBindings().Extend("error", msg))
+						}
 						x, have := bs["?op"]
 						if !have {
 							return core.NewExecution(bs.Extend("error", "no op")), nil
 						}
 						op, err := AsCrewOp(x)
 						if err != nil {
-							return core.NewExecution(bs.Extend("error", "bad crew op: "+err.Error())), nil
+							return failed("bad crew op: " + err.Error()), nil
 						}
 						if op == nil {
 							return core.NewExecution(bs), nil
@@ -103,7 +112,7 @@ func (c *Crew) NewCaptainSpec() *core.Spec {
 
 						err = c.DoOp(ctx, op)
 						if err != nil {
-							return core.NewExecution(bs.Extend("error", "crew op error: "+err.Error())), nil
+							return failed("crew op error: " + err.Error()), nil
 						}
 
 						return core.NewExecution(match.NewBindings()), nil
